@@ -294,6 +294,49 @@ def r9_model_built_when_work_is_offered(ctx: Context) -> None:
     ctx.floor("C14.R9", "offer-dependent guards of the solve call", n, 1)
 
 
+def r10_capacity_by_type(ctx: Context) -> None:
+    ctx.rule("C14.R10", "Resources.get_unique_resource_types (the per-type capacity every planner bounds its constraints with) stores "
+                        "under each `any` key the total of that same key: value = get_total_quantity(<the key>)")
+    from ..anchors import RESOURCES
+    fn = method(ctx.repo.mod(RESOURCES).cls("Resources"), "get_unique_resource_types")
+    stores = [a for a in ast.walk(fn) if isinstance(a, ast.Assign) and isinstance(a.targets[0], ast.Subscript)]
+    ctx.floor("C14.R10", "stores in get_unique_resource_types", len(stores), 1)
+    for a in stores:
+        k = norm(a.targets[0].slice)
+        v = a.value
+        if isinstance(v, ast.Name):  # hoisted into a local
+            vd = [d for d in ast.walk(fn) if isinstance(d, ast.Assign) and isinstance(d.targets[0], ast.Name) and d.targets[0].id == v.id]
+            if len(vd) == 1:
+                v = vd[0].value
+        ok = isinstance(v, ast.Call) and call_name(v) in ("get_total_quantity",) and v.args and norm(v.args[0]) == k
+        kd = [d for d in ast.walk(fn) if isinstance(d, ast.Assign) and isinstance(d.targets[0], ast.Name) and d.targets[0].id == k]
+        okk = bool(kd) and isinstance(kd[0].value, ast.Call) and call_name(kd[0].value) == "Resource" and any(
+            kw.arg == "_id" and isinstance(kw.value, ast.Constant) and kw.value.value == "any" for kw in kd[0].value.keywords)
+        ctx.check(ok and okk, "C14.R10", "Resources.get_unique_resource_types|capacity of a type = total over all its instances", loc(a),
+                  f"[{k}] = get_total_quantity({k})", f"`{norm(a)[:90]}`: the capacity recorded for the type is not the total of the wildcard key "
+                  "(one instance's quantity instead of the sum): planners under-fill workers that list a type as several instances")
+
+
+def r11_overlap_terms_same_task(ctx: Context) -> None:
+    ctx.rule("C14.R11", "ILP overlap indicators: every term accumulated in a loop over `task_k`'s strategies refers to `task_k` only "
+                        "(placement variable and occupancy time of the same task)")
+    fn = method(ctx.repo.mod("schedulers/ilp_scheduler.py").cls("ILPScheduler"), "_overlaps")
+    import re
+    n = 0
+    for lp in [x for x in ast.walk(fn) if isinstance(x, ast.For)]:
+        m = re.match(r"(task_\d)\.task\.available_execution_strategies", norm(lp.iter))
+        if not m:
+            continue
+        owner = m.group(1)
+        for c in calls_in(lp, "add"):
+            n += 1
+            others = sorted({x.id for x in ast.walk(c) if isinstance(x, ast.Name) and re.fullmatch(r"task_\d", x.id) and x.id != owner})
+            ctx.check(not others, "C14.R11", f"ILPScheduler._overlaps|term of {owner} `{norm(c.args[0])[:50] if c.args else ''}`", loc(c), "same task",
+                      f"a term summed over the strategies of `{owner}` reads {others}: the end time of `{owner}` is built from another task's "
+                      "occupancy time (a RUNNING task then blocks its worker for its full runtime again, or too briefly)")
+    ctx.floor("C14.R11", "per-strategy terms in _overlaps", n, 2)
+
+
 def run(ctx: Context) -> None:
     ctx.isolate(r1_gating_exact)
     ctx.isolate(r2_occupancy_not_wider)
@@ -304,3 +347,6 @@ def run(ctx: Context) -> None:
     ctx.isolate(c10.r5c_compat_on_cleared_worker, rule="C14.R7")
     ctx.isolate(c12.r1_admission, _alias={"C12.R1": "C14.R8"})
     ctx.isolate(r9_model_built_when_work_is_offered)
+    ctx.isolate(r10_capacity_by_type)
+    ctx.isolate(r11_overlap_terms_same_task)
+    ctx.isolate(c10.r7_config_not_rewritten, rule="C14.R12")
